@@ -171,3 +171,55 @@ class ScriptedEvaluator:
         res = self.Result(objectives=objs, constraints=cons)
         self.returned.append((res, objs, None if cons is None else cons, objs.copy(), None if cons is None else cons.copy()))
         return res
+
+
+class FakeSampler:
+    """Sampler interface contract (C17 proves it for the built-in sampler): returns an (R, P, N) array that is zero outside its
+    mask; the samples themselves are given (symbolic) values."""
+
+    def __init__(self, samples):
+        self.samples, self.calls = samples, 0
+
+    def generate_samples(self):
+        self.calls += 1
+        return self.samples.copy()
+
+
+class InvertContract:
+    """Contract stub of ropt.ensemble_evaluator._gradient:_invert_linear_equations (truncated-SVD least squares).
+
+    requires  COND(M): full column rank and smallest squared singular value >= 1% of the total (hypothesis of C02)
+    ensures   result is THE least-squares solution: for every vector x,  M^T M x = M^T v  =>  result = x.
+    The universally quantified post-condition is instantiated at the ghost vectors supplied by the scenario.  The stub is a
+    function: equal arguments give the same result object (needed by the relational obligations of C03).
+    The real body is checked against this contract only at run time on random well-conditioned systems (bounded)."""
+
+    def __init__(self, T, ghosts=()):
+        self.T, self.ghosts, self.memo, self.calls = T, list(ghosts), {}, []
+
+    def __call__(self, matrix, vector):
+        import z3
+
+        from roptvc import snp, sym
+
+        T = self.T
+        M, v = snp._obj(matrix), snp._obj(vector)
+        key = (M.shape, tuple(repr(e) for e in M.flat), tuple(repr(e) for e in v.flat))
+        if key in self.memo:
+            return self.memo[key].copy()
+        rows, n = M.shape
+        c = sym.ctx()
+        g = np.empty(n, dtype=object)
+        for i in range(n):
+            g[i] = sym.XR(z3.Real(c.fresh_name("lsq")))
+        g = g.view(snp.SymArray)
+        MtM = [[T.total([M[k, i] * M[k, j] for k in range(rows)]) for j in range(n)] for i in range(n)]
+        Mtv = [T.total([M[k, i] * v[k] for k in range(rows)]) for i in range(n)]
+        for x in self.ghosts:
+            if len(x) != n:
+                continue
+            normal = T.all([T.same(T.total([MtM[i][j] * x[j] for j in range(n)]), Mtv[i]) for i in range(n)])
+            c.assume(T.implies(normal, T.all([T.same(g[i], x[i]) for i in range(n)])))
+        self.memo[key] = g
+        self.calls.append((matrix, vector))
+        return g.copy()
